@@ -44,6 +44,19 @@ func effects(sp *refspec.Spec, pre, post *refspec.State) []string {
 			break
 		}
 	}
+	// a validator whose effective balance is 0 while its balance sits inside the upward hysteresis margin
+	// (>= one increment, not yet increment + upward threshold): the update must leave it at 0
+	{
+		inc := sp.P.EFFECTIVE_BALANCE_INCREMENT
+		up := inc / sp.P.HYSTERESIS_QUOTIENT * sp.P.HYSTERESIS_UPWARD_MULTIPLIER
+		for i := range pre.Validators {
+			if i < len(post.Validators) && pre.Validators[i].EffectiveBalance == 0 && post.Validators[i].EffectiveBalance == 0 &&
+				post.Balances[i] >= inc && post.Balances[i] <= up {
+				m["zero-effective-balance-inside-upward-margin"] = true
+				break
+			}
+		}
+	}
 	// activation out of a long queue whose (eligibility epoch, index) order is not the index order
 	{
 		type q struct{ e, i uint64 }
@@ -347,7 +360,7 @@ func TestCheck(t *testing.T) {
 		return
 	}
 	r.Mandatory("effect:upgrade-to-altair", "effect:upgrade-to-bellatrix", "effect:upgrade-to-capella", "effect:upgrade-to-deneb",
-		"effect:justified-changed", "effect:finalized-changed", "effect:leak-active", "effect:ejection", "effect:activation", "effect:activation-from-long-queue-not-in-index-order",
+		"effect:justified-changed", "effect:finalized-changed", "effect:leak-active", "effect:ejection", "effect:activation", "effect:activation-from-long-queue-not-in-index-order", "effect:zero-effective-balance-inside-upward-margin",
 		"effect:effective-balance-changed", "effect:historical-append", "effect:eth1-reset", "effect:sync-rotation", "effect:inactivity-score-changed")
 	// ---- class tour: one directed template per mandatory deep class, free details still drawn
 	for ti, tour := range tours {
@@ -503,6 +516,7 @@ var tours = []struct {
 		}
 		return cc
 	}},
+	{"deposits-of-every-kind", func(rt *rapid.T) *sim.ChainCase { return sim.TourDeposits(rt, nil) }},
 	{"upgrades-after-sync-rotation", sim.TourUpgradesAfterSyncRotation},
 	{"justification-patterns", sim.TourJustificationPatterns},
 	{"ejection-wave-capped-activation-churn", func(rt *rapid.T) *sim.ChainCase {
